@@ -26,7 +26,7 @@ type Op struct {
 	N     int      `json:"n,omitempty"`
 	Start int      `json:"start,omitempty"`
 	End   int      `json:"end,omitempty"`
-	Via   string   `json:"via,omitempty"` // clear: "history" = History.Clear, "stash" = the embedded Stash.Clear (what clear-history calls)
+	Via   string   `json:"via,omitempty"` // clear: "history" = History.Clear, "lisp" = (clear-history :start s :end e)
 }
 
 type Job struct {
@@ -61,19 +61,20 @@ func apply(h **repl.History, limit *int, hist string, o Op) {
 	case "add":
 		(*h).Add(formOf(o.Form))
 	case "clear":
-		if o.Via == "stash" {
-			(*h).Stash.Clear(o.Start, o.End)
+		if o.Via == "lisp" { // *h is repl.TheHistory: the Lisp function works on it (through its embedded Stash)
+			if out := common.EvalIn(lispScope, fmt.Sprintf("(clear-history :start %d :end %d)", o.Start, o.End)); out.Err != "" {
+				panic(out.Err + ": " + out.Msg)
+			}
 		} else {
 			(*h).Clear(o.Start, o.End)
 		}
 	case "limit":
 		*limit = o.N
 		(*h).SetLimit(o.N)
-	case "restart":
-		nh := &repl.History{}
-		nh.SetLimit(*limit)
-		nh.Load(hist)
-		*h = nh
+	case "restart": // a new process: an empty History (the global one stays the global one)
+		**h = repl.History{}
+		(*h).SetLimit(*limit)
+		(*h).Load(hist)
 	}
 }
 
@@ -89,7 +90,8 @@ func Worker(ctx *common.Ctx) {
 	if err = json.Unmarshal(data, &job); err != nil {
 		panic(err)
 	}
-	h := &repl.History{}
+	h := &repl.TheHistory
+	*h = repl.History{}
 	limit := job.Limit
 	h.SetLimit(limit)
 	h.Load(job.Hist)
@@ -208,7 +210,7 @@ func Run(ctx *common.Ctx) {
 			case x < 82:
 				o := Op{Kind: "clear", Start: 0, End: -1, Via: "history"}
 				if ctx.Rng.Chance(50) {
-					o.Via = "stash"
+					o.Via = "lisp"
 				}
 				if ctx.Rng.Chance(65) { // a proper range: positions from the most recent entry, both ends may lie outside
 					o.Start, o.End = ctx.Rng.Intn(9)-2, ctx.Rng.Intn(11)-2
@@ -225,7 +227,8 @@ func Run(ctx *common.Ctx) {
 		}
 		job := Job{Limit: limit, Hist: hist, Ops: ops}
 		// (a) in-process run with observations after every op
-		h := &repl.History{}
+		h := &repl.TheHistory
+		*h = repl.History{}
 		lim := limit
 		h.SetLimit(lim)
 		h.Load(hist)
@@ -272,7 +275,7 @@ func Run(ctx *common.Ctx) {
 		}
 	}
 	ctx.Meta.DistinctNontrivial = len(distinct)
-	ctx.Meta.Rule = "random sequences (3..30 ops, thorough 3..60) of History.Add (plain, multi-line, non-ASCII, adjacent duplicates, and in 35% of the sequences blank/leading-blank/trailing-blank/tab-containing/empty-line forms) / Clear(start,end) (35% the whole range, else start in -2..6 and end in -2..8 counted from the most recent entry; through History.Clear or the embedded Stash.Clear that clear-history calls) / SetLimit(0..11) / restart, from an empty directory, an existing history or a stale history.tmp; memory, both files and a fresh Load observed after every op; for the first sequences of the run a worker process is killed (strace inject SIGKILL) on entering every state-changing openat/write/rename and the directory + fresh Load recorded; distinct = distinct op sequences of length >= 3; (c) histories of 3-12 KB in which the newline of one entry falls on byte 4094..4097, 8191..8193, 12288 or a random offset, single- and two-line forms, reloaded by a fresh History; (d) 25 (thorough 300) sequences of 2-5 REPL sessions, each a process of its own on the same configuration directory, setting 0-3 of five *print-...* variables (integers or nil): every session must start with the values last set in earlier sessions, compared with the settings model; (e) 90 (thorough 900) sequences (3..24 ops, thorough 3..60) on the global repl.TheStash: Stash.Add (plain, multi-line, blanks at the ends, strings and comments holding parentheses, repetitions, and in 30% of the sequences blank/TAB-containing/empty-line/incomplete/two-expression/reader-rejected forms) / Stash.Clear or (clear-stash :start s :end e) with ranges as above / (use-stash file) / restart (empty Stash + LoadExpanded), from no stash file, one as Add writes it, one as Clear writes it, slip's hand-written test file, with or without a stale stash.lisp.tmp; memory (through Stash.Nth), both files and a fresh LoadExpanded (forms, reader failure) after every op; for the first sequences a worker process is killed on entering every state-changing system call; (f) 4 (thorough 40) configuration directories with saved settings: the session that changes one variable is killed on entering every state-changing system call on config.lisp / config.lisp.tmp and a fresh session reports the settings it starts with (must be all before or all after; compared with the step model of updateConfigFile)"
+	ctx.Meta.Rule = "random sequences (3..30 ops, thorough 3..60) of History.Add (plain, multi-line, non-ASCII, adjacent duplicates, and in 35% of the sequences blank/leading-blank/trailing-blank/tab-containing/empty-line forms) / Clear(start,end) (35% the whole range, else start in -2..6 and end in -2..8 counted from the most recent entry; through History.Clear or (clear-history :start s :end e) on the global repl.TheHistory) / SetLimit(0..11) / restart, from an empty directory, an existing history or a stale history.tmp; memory, both files and a fresh Load observed after every op; for the first sequences of the run a worker process is killed (strace inject SIGKILL) on entering every state-changing openat/write/rename and the directory + fresh Load recorded; distinct = distinct op sequences of length >= 3; (c) histories of 3-12 KB in which the newline of one entry falls on byte 4094..4097, 8191..8193, 12288 or a random offset, single- and two-line forms, reloaded by a fresh History; (d) 25 (thorough 300) sequences of 2-5 REPL sessions, each a process of its own on the same configuration directory, setting 0-3 of five *print-...* variables (integers or nil): every session must start with the values last set in earlier sessions, compared with the settings model; (e) 90 (thorough 900) sequences (3..24 ops, thorough 3..60) on the global repl.TheStash: Stash.Add (plain, multi-line, blanks at the ends, strings and comments holding parentheses, repetitions, and in 30% of the sequences blank/TAB-containing/empty-line/incomplete/two-expression/reader-rejected forms) / Stash.Clear or (clear-stash :start s :end e) with ranges as above / (use-stash file) / restart (empty Stash + LoadExpanded), from no stash file, one as Add writes it, one as Clear writes it, slip's hand-written test file, with or without a stale stash.lisp.tmp; memory (through Stash.Nth), both files and a fresh LoadExpanded (forms, reader failure) after every op; for the first sequences a worker process is killed on entering every state-changing system call; (f) 4 (thorough 40) configuration directories with saved settings: the session that changes one variable is killed on entering every state-changing system call on config.lisp / config.lisp.tmp and a fresh session reports the settings it starts with (must be all before or all after; compared with the step model of updateConfigFile)"
 	header := "From C20 Require Import Model Spec Corr.\nOpen Scope N_scope.\n"
 	footer := "Definition res := Eval vm_compute in check_all cases.\nPrint res.\nDefinition gcount := Eval vm_compute in guard_count cases.\nPrint gcount.\n"
 	ctx.WriteShards("cases", header, "case", footer, terms, descs, 16)
